@@ -141,6 +141,11 @@ def run_case(case):
                         resp = [msg.obj]
                     else:
                         resp = None
+                    if len(trace) > 6000:
+                        # a plan that should have ended long ago (the largest legitimate case is a few hundred messages)
+                        g.close()
+                        outcome = ("runaway", len(trace))
+                        break
                     if c["close_after"] is not None and reps_done >= c["close_after"] and msg.command in ("null", "save"):
                         g.close()
                         outcome = ("closed", None)
@@ -185,6 +190,8 @@ def run_case(case):
                              f"{n_reps} repetitions, expected {exp_reps} (num={num}, delays={c['kind']} len={c['length']})"))
         if exp_err and (outcome is None or outcome[0] != "ValueError"):
             problems.append(("ValueError-not-raised", f"outcome {outcome}"))
+        if outcome and outcome[0] == "runaway":
+            problems.append(("plan-did-not-terminate", f"more than {outcome[1]} messages for num={num}"))
         if not exp_err and outcome and outcome[0] in ("ValueError", "raise"):
             problems.append((f"unexpected-{outcome[0]}", f"{outcome[1]}"))
         # checkpoints and sleeps per repetition
